@@ -1087,6 +1087,11 @@ func (d *driver) runTrace(id, length int) {
 			}
 		}
 	}
+	if !d.hung && sc.Feat["reload"] && w.Alive && len(sc.Cfgs) > 1 && d.rng.Intn(2) == 0 {
+		// one more configuration change, loaded by the quiescence suffix while the pods bound so far are alive
+		w.CfgCur = (w.CfgCur + 1) % len(sc.Cfgs)
+		d.emit(M{"ev": "ChangeConfig", "conf": w.CfgCur + 1})
+	}
 	if !d.hung {
 		d.quiesce()
 	}
